@@ -730,8 +730,11 @@ fn classify(prop: &str, v: &SV, o: &O) -> String {
                               || matches!(x, SV::Map(_, e) if e.is_empty()) || matches!(x, SV::Struct(e) | SV::StructVariant(_, e) if e.is_empty())) {
         return id("empty-no-braces");
     }
-    // an implicit (`key: value`) mapping key is limited to 1024 characters by YAML; the emitter writes longer scalar keys that way
-    if has(&|x| matches!(x, SV::Map(_, es) if es.iter().any(|(k, _)| matches!(k, SV::Str(t) if t.chars().count() > 1000)))) { return id("long-implicit-key"); }
+    // an implicit (`key: value`) mapping key is limited to 1024 characters by YAML; longer scalar keys / variant names are written
+    // as explicit keys (`? key`) since the fix of `long-implicit-key`: a failure with such a key is that class again
+    if has(&|x| matches!(x, SV::Map(_, es) if es.iter().any(|(k, _)| matches!(k, SV::Str(t) if t.chars().count() > 1000)))
+                 || matches!(x, SV::NewtypeVariant(n, _) | SV::TupleVariant(n, _) | SV::StructVariant(n, _) if n.chars().count() > 1000)
+                 || matches!(x, SV::Struct(fs) | SV::StructVariant(_, fs) if fs.iter().any(|(n, _)| n.chars().count() > 1000))) { return id("long-implicit-key"); }
     if o.indent == 1 { return id("indent-step-1"); }
     if o.indent >= 3 { return id("indent-step-ge3"); }
     if o.compact { return id("compact-list-indent"); }
@@ -1025,6 +1028,17 @@ struct Ctx {
 }
 
 impl Ctx {
+    /// a hand-written text for the reference reader vs the real parser (the rule under validation is not reachable
+    /// through emitted texts: since the fix of `long-implicit-key` the emitter writes no implicit key above 1024 characters)
+    fn read_text(&mut self, family: &str, text: &str) {
+        if !self.texts.insert(text.to_string()) { return; }
+        let single = matches!(doc_count(text), Ok(0) | Ok(1));
+        let imp = match parse_any(text) { Ok(val) if single => format!("some {}", P::from_val(&val).tokens()), _ => "none".to_string() };
+        self.sink.count(&format!("family.{family}"));
+        self.sink.count(&format!("read.{}", imp.split(' ').next().unwrap()));
+        self.sink.case(&format!("emit read {}", hex(text)), &imp);
+    }
+
     fn case(&mut self, family: &str, v: &SV, o: &O) {
         let r = emit_impl(v, o);
         let ans = match &r { Err(p) => format!("panic {}", hex(p)), Ok(Err(e)) => e.clone(), Ok(Ok(t)) => format!("ok {}", hex(t)) };
@@ -1053,11 +1067,7 @@ impl Ctx {
             // key" (known reader rule `null-key-map-as-key`), the reference reader does not
             let null_key_map = has_null_key_map_key(v);
             if null_key_map { self.sink.count("read.skipped_null_key_map_key"); }
-            // an implicit key longer than 1024 characters: the real parser rejects it, the reference reader has no such limit yet
-            // (finding long-implicit-key: the emitter should write such a key as an explicit `? key`)
-            let long_key = v.any(&|x| matches!(x, SV::Map(_, es) if es.iter().any(|(k, _)| matches!(k, SV::Str(t) if t.chars().count() > 1000))));
-            if long_key { self.sink.count("read.skipped_long_implicit_key"); }
-            if !empty_key && !open_flow && !random_broken && !null_key_map && !long_key && self.texts.insert(text.clone()) {
+            if !empty_key && !open_flow && !random_broken && !null_key_map && self.texts.insert(text.clone()) {
                 // a null document is not counted by from_multiple (0 documents); two or more = not one document
                 let single = matches!(doc_count(text), Ok(0) | Ok(1));
                 let imp = match parse_any(text) { Ok(val) if single => format!("some {}", P::from_val(&val).tokens()), _ => "none".to_string() };
@@ -1209,6 +1219,39 @@ fn name_opts() -> Vec<O> {
     v
 }
 
+/// texts around the limit of implicit keys (the `:` must follow within 1024 characters of the start of the key, on its line):
+/// plain / quoted / multi-byte keys of 1023..1026 characters at the root, nested, after a dash, as a later entry, as a variant
+/// key, with blanks before the colon; the explicit and the flow forms of the same keys (no limit)
+fn long_key_texts() -> Vec<String> {
+    let mut out = Vec::new();
+    for n in [1023usize, 1024, 1025, 1026, 2000] {
+        let k = "k".repeat(n);
+        out.push(format!("{k}: 1\n"));
+        out.push(format!("\"{}\": 1\n", "k".repeat(n - 2)));
+        out.push(format!("'{}': 1\n", "k".repeat(n - 2)));
+        out.push(format!("\"{}\\t\": 1\n", "k".repeat(n - 4)));
+        out.push(format!("a:\n  {k}: 1\n"));
+        out.push(format!("a: 0\n{k}: 1\n"));
+        out.push(format!("- {k}: 1\n"));
+        out.push(format!("- a: 0\n  {k}:\n    - 1\n"));
+        out.push(format!("{}: 1\n", "\u{e9}".repeat(n)));
+        out.push(format!("{} : 1\n", "k".repeat(n - 1)));
+        out.push(format!("{}  : 1\n", "k".repeat(n - 2)));
+        out.push(format!("a:\n  {k}:\n    - 1\n"));
+        out.push(format!("? {k}\n: 1\n"));
+        out.push(format!("- ? {k}\n  : 1\n"));
+        out.push(format!("{{{k}: 1}}\n"));
+        out.push(format!("[{k}: 1]\n"));
+        out.push(format!("{k}\n"));
+        out.push(format!("- {k}\n- \"{k}\"\n"));
+        out.push(format!("a: {k}\n"));
+    }
+    out
+}
+
+/// a name of `n` characters `c` (variant / field names are `&'static str`)
+fn long_name(c: char, n: usize) -> &'static str { Box::leak(c.to_string().repeat(n).into_boxed_str()) }
+
 /// C13 regression witnesses: one per repaired defect class (each fails again under its old id when its fix is reverted)
 fn witnesses13() -> Vec<(SV, O)> {
     let d = O::default();
@@ -1232,8 +1275,27 @@ fn witnesses13() -> Vec<(SV, O)> {
         (SV::Seq(vec![SV::StructVariant("No", vec![("a", i(1))]), SV::TupleVariant("on", vec![i(1), i(2)])]), d),
         (SV::Seq(vec![SV::UnitVariant("Axis", "X"), SV::UnitVariant("Axis", "Y")]), O { tagged: true, ..d }),            // tagged-variant-yaml11-bool (seed C20/3)
         (SV::Map(true, vec![(SV::Str("k".repeat(1024)), i(1))]), d),                                                     // longest implicit key
-        (SV::Map(true, vec![(SV::Str("k".repeat(1025)), i(1))]), d),                                                     // long-implicit-key (finding)
+        (SV::Map(true, vec![(SV::Str("k".repeat(1025)), i(1))]), d),                                                     // long-implicit-key (fixed: explicit key)
         (SV::Seq(vec![SV::Map(true, vec![(SV::Str("long key ".repeat(130)), SV::Seq(vec![i(1)]))])]), d),
+        // the boundary counts the text as written: quotes and escapes included
+        (SV::Map(true, vec![(SV::Str(format!("{}:", "k".repeat(1021))), i(1)), (SV::Str(format!("{}:", "k".repeat(1022))), i(2))]), d),
+        (SV::Map(false, vec![(SV::Str(format!("\u{7}{}", "é".repeat(1016))), l12()), (SV::Str(format!("\u{7}{}", "é".repeat(1017))), l12())]), d),
+        // long keys in every position: second entry, after a block sibling, nested under a key, field of a struct variant, inside a composite key
+        (SV::Struct(vec![("a", l12()), (long_name('f', 1025), SV::Map(false, vec![])), ("z", SV::Map(true, vec![(SV::Str("q".repeat(1030)), SV::Str("x\ny\n".into()))]))]), d),
+        (SV::StructVariant("Sv", vec![(long_name('f', 1100), SV::Struct(vec![("x", i(1))])), ("g", i(2))]), O { indent: 4, ..d }),
+        (SV::Map(true, vec![(SV::Map(true, vec![(SV::Str("c".repeat(1025)), i(1))]), SV::Map(true, vec![(SV::Str("d".repeat(1025)), i(2))]))]), O { indent: 3, compact: true, ..d }),
+        // long variant names: root, after `key:`, after `- `, as the value of a long key, nested; the name is quoted under quote_all
+        (SV::NewtypeVariant(long_name('V', 1024), Box::new(i(1))), d),
+        (SV::NewtypeVariant(long_name('V', 1025), Box::new(i(1))), d),
+        (SV::NewtypeVariant(long_name('V', 1023), Box::new(i(1))), O { quote_all: true, ..d }),
+        (SV::TupleVariant(long_name('V', 1025), vec![i(1), l12()]), O { yaml12: true, ..d }),
+        (SV::StructVariant(long_name('V', 1025), vec![("a", i(1)), ("b", l12())]), d),
+        (SV::Struct(vec![("k", SV::TupleVariant(long_name('V', 1025), vec![i(1), i(2)])), ("m", SV::StructVariant(long_name('W', 1025), vec![])), ("z", SV::NewtypeVariant(long_name('X', 1025), Box::new(SV::Str("a\nb\n".into()))))]), d),
+        (SV::Seq(vec![SV::StructVariant(long_name('V', 1025), vec![("a", i(1)), ("b", i(2))]), SV::TupleVariant(long_name('W', 1025), vec![]), SV::NewtypeVariant(long_name('X', 1025), Box::new(l12()))]), d),
+        (SV::Seq(vec![SV::Seq(vec![SV::NewtypeVariant(long_name('V', 1025), Box::new(SV::NewtypeVariant(long_name('W', 1025), Box::new(SV::NewtypeVariant("S", Box::new(l12()))))))])]), O { indent: 3, ..d }),
+        (SV::Struct(vec![("k", SV::Seq(vec![SV::NewtypeVariant(long_name('V', 1025), Box::new(SV::Struct(vec![("x", i(1)), ("y", SV::Seq(vec![]))])))]))]), O { indent: 1, compact: true, ..d }),
+        (SV::Map(true, vec![(SV::TupleVariant(long_name('V', 1025), vec![i(1)]), SV::StructVariant(long_name('W', 1025), vec![("a", i(1))])), (SV::Str("k".repeat(1025)), SV::NewtypeVariant(long_name('X', 1025), Box::new(i(3))))]), d),
+        (SV::FlowSeq(Box::new(SV::Seq(vec![SV::NewtypeVariant(long_name('V', 1025), Box::new(i(1)))]))), d),
     ]
 }
 
@@ -1244,7 +1306,10 @@ fn generate(a: &Args, wrappers: bool) -> i32 {
     let mut cx = Ctx { sink: Sink::new(&a.out, fname), prop, oracle: vec![], per_id: BTreeMap::new(), texts: Default::default(), distinct: Default::default(), erased: Default::default(), minimal_seen: Default::default(), per_id_records: BTreeMap::new() };
     let grid = O::grid();
     if wrappers { for (v, o) in witnesses() { cx.case("witness", &v, &o); } }
-    else { for (v, o) in witnesses13() { cx.case("witness", &v, &o); } }
+    else {
+        for (v, o) in witnesses13() { cx.case("witness", &v, &o); }
+        for t in long_key_texts() { cx.read_text("reader_long_keys", &t); }
+    }
     // look-alike names of variants / fields in every role and position x tagged_enums / quote_all / yaml_12
     for n in LOOKALIKE_NAMES.iter() {
         for v in name_shapes(n, wrappers) { for o in name_opts() { cx.case("names", &v, &o); } }
@@ -1323,7 +1388,7 @@ fn generate(a: &Args, wrappers: bool) -> i32 {
     cx.sink.finish(&a.out, fname, serde_json::json!({
         "distinct_nontrivial": nt,
         "oracle_failures_by_id": cx.per_id,
-        "rule": format!("{prop}: value trees of the Serde data model ({}) serialized by a run-time `Serialize` impl that issues the derive calls: exhaustive over all trees with <= {maxn} nodes (16 leaf kinds incl. empty containers, 9{} unary and 7 binary constructors) x the 16-vector option grid (indent 1-4, compact_list_indent, empty_as_braces, quote_all, yaml_12, tagged_enums, prefer_block_scalars), a name family (32 look-alike names of enum variants / struct fields — YAML 1.1 booleans, nulls, numbers, `<<`, `---`, indicators, flow and key indicators inside the name, blanks — in 8 roles x 8 (+4 flow / comment) positions x every combination of tagged_enums / quote_all / yaml_12), a sibling-interaction family (19 parent shapes x representative children squared), random trees up to depth 5 under random option vectors (indent 1-10, fold parameters); every emitted text is compared byte for byte with the Lean emitter model (`emit ser`), every distinct text is read by the Lean reference reader and by the real parser (`emit read`), and the implementation-only oracle checks {}. Non-trivial = distinct value tree with more than one node.",
+        "rule": format!("{prop}: value trees of the Serde data model ({}) serialized by a run-time `Serialize` impl that issues the derive calls: exhaustive over all trees with <= {maxn} nodes (16 leaf kinds incl. empty containers, 9{} unary and 7 binary constructors) x the 16-vector option grid (indent 1-4, compact_list_indent, empty_as_braces, quote_all, yaml_12, tagged_enums, prefer_block_scalars), a name family (32 look-alike names of enum variants / struct fields — YAML 1.1 booleans, nulls, numbers, `<<`, `---`, indicators, flow and key indicators inside the name, blanks — in 8 roles x 8 (+4 flow / comment) positions x every combination of tagged_enums / quote_all / yaml_12), a sibling-interaction family (19 parent shapes x representative children squared), regression witnesses (keys / variant names of 1024 / 1025 characters in every position among them), hand-written texts around the 1024-character limit of implicit keys (family reader_long_keys: read by the reference reader and the real parser only), random trees up to depth 5 under random option vectors (indent 1-10, fold parameters); every emitted text is compared byte for byte with the Lean emitter model (`emit ser`), every distinct text is read by the Lean reference reader and by the real parser (`emit read`), and the implementation-only oracle checks {}. Non-trivial = distinct value tree with more than one node.",
                         if wrappers { "decorated with FlowSeq/FlowMap/Commented/SpaceAfter/LitStr/FoldStr at every position, comments and block strings with #, line breaks (LF, CR, NEL, LS, PS), YAML syntax, leading blanks, trailing newlines, long words" } else { "no presentation wrappers" },
                         if wrappers { "+4" } else { "" },
                         if wrappers { "that the wrapped value under the option vector reads back (untyped and typed, exactly one document) as the same data as the bare value under default options, folded strings modulo trailing line breaks" } else { "exactly one document, untyped tree = erase(value), typed deserialization through a Ty derived from the value = value" }),
